@@ -651,6 +651,7 @@ func c15(c *core.Ctx) {
 	// C15.8 (pointers that may be nil because of what a peer sent)
 	c15Nil(c)
 	c15Div(c, netClosure)
+	c15OpenDecode(c)
 
 	c.NotDecidedf("bounds and nil checks the rules above do not prove: slicing with variable bounds (e.g. ecies.Decrypt's c[:rLen], the rlp decoder's internal buffers), indexing, nil dereference of decoded pointers, integer division by zero, nil-map writes")
 	c.NotDecidedf("CPU exhaustion (e.g. respBlocks over a 4-billion range), memory held by many small well-formed messages, goroutine leaks")
